@@ -15,8 +15,10 @@ argv = [repo, gen_dir].  Accepted grammar (anything else: exit 1, golden copy pu
                                                             IDX ::= self._normal_index | self._vertex_index
     X.shape = (...)
     tangent = normalize_v3(V - V * dot_v3(V, V)[:, numpy.newaxis])       V ::= norm | tan1
-    everything from `tanw = ...` on (binormal handedness) and assignments to self._tex* are not
-    translated; every translated name must be assigned exactly once."""
+    tanw = dot_v3(numpy.cross(V, V), V);  tanw = numpy.sign(tanw)          V ::= norm | tan1 | tan2
+    binorm = numpy.cross(B, B).flatten();  binorm = binorm * tanw[:, numpy.newaxis]   B ::= norm | tangent
+    assignments to self._tex* are not translated; every translated scalar/vector name must be
+    assigned exactly once."""
 import ast
 import os
 import sys
@@ -106,7 +108,7 @@ def translate(repo):
     fns = [n for n in cls[0].body if isinstance(n, ast.FunctionDef) and n.name == 'generateTexTangentsAndBinormals']
     if len(fns) != 1:
         raise Reject('generateTexTangentsAndBinormals not found')
-    lets, scalars, vectors, gathers, assigned = [], set(), {}, {}, {}
+    lets, scalars, vectors, gathers, assigned, extra = [], set(), {}, {}, {}, {}
     tangent = None
     acc = {'tans1': [], 'tans2': []}
     for stmt in fns[0].body:
@@ -116,7 +118,8 @@ def translate(repo):
             name, val = stmt.targets[0].id, stmt.value
             assigned[name] = assigned.get(name, 0) + 1
             if name == 'tanw' or name == 'binorm':
-                continue                                     # binormal handedness: not translated
+                extra.setdefault(name, []).append(val)       # binormal and its handedness: checked below
+                continue
             if name == 'tris':
                 if not (isinstance(val, ast.Subscript) and self_attr(val.value, '_vertex') and self_attr(val.slice, '_vertex_index')):
                     raise Reject('tris is not self._vertex[self._vertex_index]')
@@ -193,6 +196,34 @@ def translate(repo):
     if any(n not in ('norm', 'tan1') for n in names):
         raise Reject('tangent expression over %r' % names)
     A, B, C, D = names
+    # tanw = dot_v3(numpy.cross(X, Y), Z); tanw = numpy.sign(tanw)
+    # binorm = numpy.cross(P, Q).flatten(); binorm = binorm * tanw[:, numpy.newaxis]
+    tw, bn = extra.get('tanw', []), extra.get('binorm', [])
+    if len(tw) != 2 or len(bn) != 2:
+        raise Reject('tanw / binorm are not assigned twice each')
+    t0 = tw[0]
+    if not (isinstance(t0, ast.Call) and ast.unparse(t0.func) == 'dot_v3' and len(t0.args) == 2
+            and isinstance(t0.args[0], ast.Call) and ast.unparse(t0.args[0].func) == 'numpy.cross'
+            and len(t0.args[0].args) == 2 and all(isinstance(a, ast.Name) for a in t0.args[0].args)
+            and isinstance(t0.args[1], ast.Name)):
+        raise Reject('tanw is not dot_v3(numpy.cross(X, Y), Z)')
+    X, Y, Z = t0.args[0].args[0].id, t0.args[0].args[1].id, t0.args[1].id
+    if any(n not in ('norm', 'tan1', 'tan2') for n in (X, Y, Z)):
+        raise Reject('tanw over %r' % ((X, Y, Z),))
+    if ast.unparse(tw[1]) != 'numpy.sign(tanw)':
+        raise Reject('second tanw is not numpy.sign(tanw)')
+    b0 = bn[0]
+    if not (isinstance(b0, ast.Call) and isinstance(b0.func, ast.Attribute) and b0.func.attr == 'flatten' and not b0.args
+            and isinstance(b0.func.value, ast.Call) and ast.unparse(b0.func.value.func) == 'numpy.cross'
+            and len(b0.func.value.args) == 2 and all(isinstance(a, ast.Name) for a in b0.func.value.args)):
+        raise Reject('binorm is not numpy.cross(P, Q).flatten()')
+    P, Q = (a.id for a in b0.func.value.args)
+    if any(n not in ('norm', 'tangent') for n in (P, Q)):
+        raise Reject('binorm over %r' % ((P, Q),))
+    if ast.unparse(bn[1]) != 'binorm * tanw[:, numpy.newaxis]':
+        raise Reject('second binorm is not binorm * tanw[:, numpy.newaxis]')
+    if 'tan2' not in gathers or gathers['tan2'][0] != 'tans2':
+        raise Reject('tan2 is not gathered from tans2')
     let_text = ''.join('    let %s := %s in\n' % (n, x) for n, x in lets)
     idx = {'n': 'n', 't': 't'}
     text = ('(* GENERATED by harness/translate/tangents.py from collada/triangleset.py - do not edit.\n'
@@ -218,13 +249,40 @@ def translate(repo):
             '             (tris uvtris ntris : list tri) : list (vec o) :=\n'
             '    let tans1 := accumulate3 o (code_accumulate o) (length verts) tris\n'
             '                   (rows2 o (code_sdir_of verts uvs) tris uvtris) in\n'
-            '    corner_rows o (code_corner_tangent normals tans1) tris ntris.\n'
+            '    corner_rows o (code_corner_tangent normals tans1) tris ntris.\n\n'
+            '  (* ---- binormal: tanw = sign(dot_v3(cross(%s, %s), %s)); binorm = cross(%s, %s) * tanw ---- *)\n'
+            '  Variable nrm : vec o -> vec o.     (* normalize_v3 on one row *)\n'
+            '  Variable sgn : car o -> car o.     (* numpy.sign *)\n\n'
+            '  Definition code_tdir_of (verts : list (vec o)) (uvs : list (uv o)) (t u : tri) : vec o :=\n'
+            '    code_tdir (vnth o verts (c0 t)) (vnth o verts (c1 t)) (vnth o verts (c2 t))\n'
+            '              (uvnth o uvs (c0 u)) (uvnth o uvs (c1 u)) (uvnth o uvs (c2 u)).\n\n'
+            '  Definition code_corner_handedness (normals tans1 tans2 : list (vec o)) (t n : tri) (c : nat) : car o :=\n'
+            '    let norm := vnth o normals (corner %s c) in\n'
+            '    let tan1 := vnth o tans1 (corner %s c) in\n'
+            '    let tan2 := vnth o tans2 (corner %s c) in\n'
+            '    sgn (dot_v3 o (cross o %s %s) %s).\n\n'
+            '  Definition code_corner_binormal (normals tans1 tans2 : list (vec o)) (t n : tri) (c : nat) : vec o :=\n'
+            '    let norm := vnth o normals (corner %s c) in\n'
+            '    let tangent := nrm (code_corner_tangent normals tans1 t n c) in\n'
+            '    let tanw := code_corner_handedness normals tans1 tans2 t n c in\n'
+            '    let binorm := cross o %s %s in\n'
+            '    (rmul o (vx o binorm) tanw, rmul o (vy o binorm) tanw, rmul o (vz o binorm) tanw).\n\n'
+            '  Definition code_gen_binormals (verts : list (vec o)) (uvs : list (uv o)) (normals : list (vec o))\n'
+            '             (tris uvtris ntris : list tri) : list (vec o) :=\n'
+            '    let tans1 := accumulate3 o (code_accumulate o) (length verts) tris\n'
+            '                   (rows2 o (code_sdir_of verts uvs) tris uvtris) in\n'
+            '    let tans2 := accumulate3 o (code_accumulate o) (length verts) tris\n'
+            '                   (rows2 o (code_tdir_of verts uvs) tris uvtris) in\n'
+            '    corner_rows o (code_corner_binormal normals tans1 tans2) tris ntris.\n'
             'End GenTangents.\n'
             % (let_text, vectors['sdir'][0], vectors['sdir'][1], vectors['sdir'][2],
                let_text, vectors['tdir'][0], vectors['tdir'][1], vectors['tdir'][2],
                'self._normal_index' if gathers['norm'][1] == 'n' else 'self._vertex_index',
                'self._normal_index' if gathers['tan1'][1] == 'n' else 'self._vertex_index',
-               idx[gathers['norm'][1]], idx[gathers['tan1'][1]], A, C, D, B))
+               idx[gathers['norm'][1]], idx[gathers['tan1'][1]], A, C, D, B,
+               X, Y, Z, P, Q,
+               idx[gathers['norm'][1]], idx[gathers['tan1'][1]], idx[gathers['tan2'][1]], X, Y, Z,
+               idx[gathers['norm'][1]], P, Q))
     return text
 
 
